@@ -12,7 +12,7 @@ import vlib
 
 
 class PRec:
-    __slots__ = ("text", "origin", "cls", "real", "real_status", "real_pos", "real_value", "real_tree", "valid",
+    __slots__ = ("text", "origin", "cls", "real", "real_status", "real_pos", "real_value", "real_tree", "valid", "exp_same",
                  "ms", "tt", "table", "model", "model_status", "model_pos", "model_value", "model_tree",
                  "model_ctr", "oracle_bad", "msg")
 
@@ -155,6 +155,16 @@ def corpus(rng, tier):
         out.append(("v, " + random_tokens(rng, rng.randint(1, 8), 3), "random", None))
     for _ in range(60 if quick else 1000):
         out.append((random_tokens(rng, rng.randint(0, 6), 2), "random-top", None))
+    # long user expressions with multi-byte characters at every byte alignment, in every position that
+    # holds user text (anything that cuts, pads or indexes such text by bytes shows here)
+    for L in range(40, 150, 5 if quick else 1):
+        for shift in range(3):
+            pad = "a" * shift
+            body = "\"" + pad + "日本語" * ((L - shift) // 9 + 1) + "\""
+            for tmpl in ("|cl_x| cl_x == %s", "%s", "== %s", "=~ f(%s)", "#{ %s: 1 }", "S { a.get(%s): 1, .. }",
+                         "S { a[%s]: 1, .. }", "m::P(%s)", "..= %s"):
+                out.append(("v, " + tmpl % body, "unicode-long", None))
+            out.append(("f(%s), 1" % body, "unicode-long", None))
     # nesting
     maxd = 11 if quick else 15
     for kind in ("some", "tuple", "slice", "struct", "set", "map", "idx"):
@@ -174,9 +184,9 @@ def corpus(rng, tier):
 
 def split_real(line):
     f = line.split("\t")
-    d = {"status": f[0], "pos": None, "value": None, "tree": None, "valid": None, "ms": 0, "tt": None, "table": None, "msg": None}
+    d = {"status": f[0], "pos": None, "value": None, "tree": None, "valid": None, "ms": 0, "tt": None, "table": None, "msg": None, "tokens": None}
     if f[0] == "ok":
-        d["value"], d["tree"], d["valid"] = f[1], f[2], f[3] == "valid=1"
+        d["value"], d["tree"], d["valid"], d["tokens"] = f[1], f[2], f[3] == "valid=1", f[4]
     elif f[0] == "err":
         msg, sp = f[1].split(" ")
         d["msg"] = vlib.unhx(msg).decode("utf-8", "replace")
@@ -194,9 +204,9 @@ def split_real(line):
 
 def split_model(line):
     f = line.split("\t")
-    d = {"status": f[0], "pos": None, "value": None, "tree": None, "ctr": None, "bad": None}
+    d = {"status": f[0], "pos": None, "value": None, "tree": None, "ctr": None, "bad": None, "tokens": None}
     if f[0] == "ok":
-        d["value"], d["tree"] = f[1], f[2]
+        d["value"], d["tree"], d["tokens"] = f[1], f[2], f[3]
     elif f[0] == "err":
         d["pos"] = f[1]
     for x in f:
@@ -228,6 +238,7 @@ def run_texts(texts, regex=True, join_ok=True, mac_env=None):
         r.real_status, r.real_pos, r.real_value, r.real_tree, r.valid, r.ms, r.tt, r.table, r.msg = (
             d["status"], d["pos"], d["value"], d["tree"], d["valid"], d["ms"], d["tt"], d["table"], d["msg"])
         r.model = m
+        r.exp_same = None
         if m is None:
             r.model_status = None
             r.model_pos = r.model_value = r.model_tree = r.model_ctr = r.oracle_bad = None
@@ -235,12 +246,16 @@ def run_texts(texts, regex=True, join_ok=True, mac_env=None):
             dm = split_model(m)
             r.model_status, r.model_pos, r.model_value, r.model_tree, r.model_ctr, r.oracle_bad = (
                 dm["status"], dm["pos"], dm["value"], dm["tree"], dm["ctr"], dm["bad"])
+            if d["status"] == "ok" and dm["status"] == "ok":
+                r.exp_same = d["tokens"] == dm["tokens"]
+                if not r.exp_same:
+                    r.msg = maclib.first_diff(d["tokens"], dm["tokens"])
         r.origin = r.cls = None
         recs.append(r)
     return recs
 
 
-def agree(r):
+def agree(r, with_expansion=True):
     """None if implementation and model agree on this stream, else a description."""
     if r.real_status == "lex":
         return None                        # never reaches the macro: rustc rejects it while lexing
@@ -254,6 +269,8 @@ def agree(r):
         return "error position: implementation %s, model %s" % (r.real_pos, r.model_pos)
     if r.real_status == "ok" and (r.real_value != r.model_value or r.real_tree != r.model_tree):
         return "parsed tree differs"
+    if with_expansion and r.real_status == "ok" and r.exp_same is False:
+        return "expansion differs: " + str(r.msg)
     return None
 
 
